@@ -62,6 +62,7 @@ def gen(rng, tier, no, wide=False):
     # the three documented ways of handing a trace over: a LabeledTrace, a Trace object, a trace directory
     case["params"]["arg_form"] = rng.choice(["labeled", "labeled", "labeled", "trace", "dir"])
     case["params"]["frac"] = rng.random() < 0.1
+    case["params"]["rewrite"] = rng.random() < 0.6
     return case
 
 
@@ -143,6 +144,17 @@ def observe(case):
             od = TraceDiff.ops_diff(ac, at, p["control_rank"], p["test_rank"], p["control_iteration"], p["test_iteration"],
                                     DeviceType[p["device"]])
             canon["ops_diff"] = {k: sorted(map(str, v)) for k, v in od.items()}
+            if form == "dir" and not p["same_object"] and p.get("rewrite"):
+                # the same directory name again after its trace files were overwritten in place with the control's: what is
+                # compared is what the directory holds now, so this is a comparison of a trace with itself
+                import shutil
+                for r, src in f1.items():
+                    if r in f2:
+                        shutil.copyfile(src, f2[r])
+                if set(f1) == set(f2):
+                    d3 = TraceDiff.compare_traces(ac, at, p["control_rank"], p["control_rank"], p["control_iteration"], p["control_iteration"], DeviceType[p["device"]], p["short"])
+                    canon["rewritten_self"] = [int((d3["diff_counts"] != 0).sum()), int((d3["diff_duration"] != 0).sum()),
+                                               sorted(set(map(str, d3["counts_change_categories"])))]
         except Exception as e:  # noqa: BLE001
             canon = {"raises": C.exc_name(e) + ": " + str(e)[:160]}
         if p.get("frac") and "raises" not in canon:
@@ -210,6 +222,9 @@ def oracle(case, obs) -> List[str]:
     if "raises" in c:
         return [f"comparison raised {c['raises']}"]
     out = []
+    rs = c.get("rewritten_self")
+    if rs is not None and (rs[0] or rs[1] or any(x != "=" for x in rs[2])):
+        out.append(f"after the test directory's files were overwritten in place with the control's, comparing the two directories still reports differences: {rs}")
     tw = c.get("twin")
     if tw is not None:
         if "raises" in tw:
